@@ -696,7 +696,7 @@ def run(c):
     def do_race(item):
         rid, st, nw = item
         return rid, run_driver([{"id": rid, "mode": "replay", "steps": st, "settle_ms": 1700}], "c16_" + rid, bindir,
-                               strace=(400, 300), timeout=120)[rid]
+                               strace=(400, 300), timeout=600)[rid]
     with concurrent.futures.ThreadPoolExecutor(max_workers=4) as ex:
         rres = dict(ex.map(do_race, races))
     rrows = []
@@ -741,7 +741,7 @@ def run(c):
             else:
                 art = {"id": rid + "_again", "mode": "replay", "steps": m["hist"]}
             again = run_driver([art], "c16_again_%s" % rid, bindir, strace=(400, 300) if m["kind"] == "race" else None,
-                               timeout=120)[art["id"]]
+                               timeout=600)[art["id"]]
             rows2, obs2, _ = rows_of(art["id"], again)
             v2 = verdicts(c, rows2, "c16_again_%s" % rid, 1)
             if prop not in v2.get(art["id"], []):
